@@ -510,6 +510,15 @@ pub fn hist<F: BoolExt>(args: &Args) {
                 } else if F::HAS_ZOPS {
                     let a = pick(&mut rng, &live);
                     match rng.below(3) {
+                        0 if stress => {
+                            // the same operation on the same operand with every variable
+                            let op = ["subset0", "subset1", "change"][rng.below(3)];
+                            for v in 0..s.n {
+                                if let Some(x) = s.op(op, &[a], json!({ "v": v }), |s| s.get(a).zvar(op, v)) {
+                                    s.drop_h(x);
+                                }
+                            }
+                        }
                         0 => {
                             let op = ["subset0", "subset1", "change"][rng.below(3)];
                             let v = rng.below(s.n as usize) as u32;
@@ -614,6 +623,91 @@ pub fn hist<F: BoolExt>(args: &Args) {
     }
     out.finish();
     write_summary(&dir, &format!("hist-{}", F::KIND), &out, json!({"ops":ops_done}));
+}
+
+/// Histories with many nodes per level: build ~60 chained functions over 7..8
+/// variables, drop a third of them, collect (partial sweeps of well-filled
+/// unique tables), re-derive the kept functions by the same recipes: the
+/// re-derived handles must be the kept ones (canonicity across gc and slot
+/// reuse), reference counts and structure are audited before and after.
+pub fn gcchurn<F: BoolExt>(args: &Args) {
+    let dir = args.get("out", "/verif/out/tmp");
+    let seed = args.num("seed", 1);
+    let thorough = args.get("tier", "quick") == "thorough";
+    let mut rng = Rng::new(seed ^ 0xc4c4);
+    let mut out = TraceOut::new(&dir, &format!("gcchurn-{}", F::KIND), 400);
+    let mut cases = 0u64;
+    for _ in 0..(if thorough { 30 } else { 4 }) {
+        let n = 7 + rng.below(2) as u32;
+        let mut s: Session<F> = Session::new(&mut out, 1 << 16, [16usize, 1024][rng.below(2)], [1u32, 2][rng.below(2)]);
+        s.add_vars(n);
+        let vars: Vec<Slot> = (0..n).filter_map(|v| s.var(v)).collect();
+        if vars.len() != n as usize {
+            continue;
+        }
+        // recipes refer to variables (index < n) or earlier recipes (index - n)
+        let count = 50 + rng.below(20);
+        let mut recipes: Vec<(usize, usize, usize)> = Vec::new();
+        let mut slots: Vec<Option<Slot>> = Vec::new();
+        let get = |slots: &Vec<Option<Slot>>, vars: &Vec<Slot>, i: usize| -> Option<Slot> {
+            if i < vars.len() { Some(vars[i]) } else { slots[i - vars.len()] }
+        };
+        for k in 0..count {
+            let hi = n as usize + k;
+            // prefer recent results: chains
+            let a = if k > 0 && rng.chance(2, 3) { n as usize + k - 1 - rng.below(k.min(3)) } else { rng.below(hi) };
+            let b = rng.below(hi);
+            let op = rng.below(8);
+            recipes.push((op, a, b));
+            let (sa, sb) = (get(&slots, &vars, a), get(&slots, &vars, b));
+            let r = match (sa, sb) {
+                (Some(x), Some(y)) => s.bin(BIN_OPS[op], x, y),
+                _ => None,
+            };
+            slots.push(r);
+            cases += 1;
+        }
+        s.snap();
+        // drop every third chain element
+        let mut dropped = vec![false; count];
+        for k in 0..count {
+            if k % 3 == rng.below(3) {
+                if let Some(x) = slots[k].take() {
+                    s.drop_h(x);
+                    dropped[k] = true;
+                }
+            }
+        }
+        s.gc();
+        s.snap();
+        // re-derive everything by the same recipes (dropped ones are rebuilt,
+        // kept ones must come out as the very same handles)
+        let mut again: Vec<Option<Slot>> = Vec::new();
+        for k in 0..count {
+            if s.dead {
+                break;
+            }
+            let (op, a, b) = recipes[k];
+            let (sa, sb) = (get(&again, &vars, a), get(&again, &vars, b));
+            let r = match (sa, sb) {
+                (Some(x), Some(y)) => s.bin(BIN_OPS[op], x, y),
+                _ => None,
+            };
+            again.push(r);
+            cases += 1;
+        }
+        if !s.dead {
+            s.obs();
+            s.snap();
+            for x in s.live() {
+                s.drop_h(x);
+            }
+            s.gc();
+            s.snap();
+        }
+    }
+    out.finish();
+    write_summary(&dir, &format!("gcchurn-{}", F::KIND), &out, json!({"rows":cases,"nontrivial":cases}));
 }
 
 /// C05: automatic background collections.  The capacity is small (128..512),
